@@ -17,7 +17,8 @@ func c10alphabet() []dop {
 	add := func(name string, f func(n *dnode)) { ops = append(ops, dop{name, f, false}) }
 	add("sess.Create(s1)", func(n *dnode) { n.st.SessionMetadatas().Create("s1", "c-"+n.name, 1, nil, "m") })
 	add("sess.Delete(s1)", func(n *dnode) { n.st.SessionMetadatas().Delete("s1") })
-	add("sess.Create(s2)", func(n *dnode) { n.st.SessionMetadatas().Create("s2", "d-"+n.name, 1, pub("w", "bye"), "m") })
+	// s2 is the session of a client that connected with an empty client identifier (the broker stores it verbatim)
+	add("sess.Create(s2)", func(n *dnode) { n.st.SessionMetadatas().Create("s2", "", 1, pub("w", "bye"), "m") })
 	add("subs.Create(s1,m/a)", func(n *dnode) { n.st.Subscriptions().Create("s1", []byte("m/a"), int32(n.peer)%3) })
 	add("subs.Delete(s1,m/a)", func(n *dnode) { n.st.Subscriptions().Delete("s1", []byte("m/a")) })
 	add("subs.Create(s2,m/a/b)", func(n *dnode) { n.st.Subscriptions().Create("s2", []byte("m/a/b"), 1) })
